@@ -414,7 +414,7 @@ def tan(x: Interval):
     zh = x.hi % numpy_pi
 
     # [-∞, ∞]
-    case1a = width(x) > numpy_pi
+    case1a = width(x) >= numpy_pi
     case1b = (zh < zl) & contain(domain1, zl) & contain(domain1, zh)
     case1c = (zh < zl) & contain(domain2, zl) & contain(domain2, zh)
     case1d = contain(domain1, zl) & contain(domain2, zh)
@@ -450,7 +450,7 @@ def tan_vector(x: Interval):  # Vectorised version of tan().
     b = tan_h.copy()
 
     # [-∞, ∞]
-    case1a = width(x) > numpy_pi
+    case1a = width(x) >= numpy_pi
     case1b = (zh < zl) & contain(domain1, zl) & contain(domain1, zh)
     case1c = (zh < zl) & contain(domain2, zl) & contain(domain2, zh)
     case1d = contain(domain1, zl) & contain(domain2, zh)
